@@ -2,6 +2,7 @@ package pongo2
 
 type tagIncludeNode struct {
 	tpl               *Template
+	origin            *Template // the template the tag is written in
 	filenameEvaluator IEvaluator
 	lazy              bool
 	only              bool
@@ -42,9 +43,12 @@ func (node *tagIncludeNode) Execute(ctx *ExecutionContext, writer TemplateWriter
 		}
 
 		// Get include-filename
-		includedFilename := ctx.template.set.resolveFilename(ctx.template, filename.String())
+		// (relative to the template the tag is written in, which is not ctx.template
+		// when that template extends another one)
+		set := node.origin.set
+		includedFilename := set.resolveFilename(node.origin, filename.String())
 
-		includedTpl, err2 := ctx.template.set.FromFile(includedFilename)
+		includedTpl, err2 := set.FromFile(includedFilename)
 		if err2 != nil {
 			// if this is ReadFile error, and "if_exists" flag is enabled
 			if node.ifExists && err2.(*Error).Sender == "fromfile" {
@@ -83,6 +87,7 @@ func (node *tagIncludeEmptyNode) Execute(ctx *ExecutionContext, writer TemplateW
 
 func tagIncludeParser(doc *Parser, start *Token, arguments *Parser) (INodeTag, *Error) {
 	includeNode := &tagIncludeNode{
+		origin:    doc.template,
 		withPairs: make(map[string]IEvaluator),
 	}
 
